@@ -33,8 +33,26 @@ def parser_options(an: Analysis) -> Dict[str, dict]:
     return out
 
 
+_NS_NAMES = {"args"}
+
+
+def namespace_names(fn: FunctionInfo):
+    """Names bound to the parsed command line, by role: assigned from `<parser>.parse_args()` (or parse_known_args()[0])."""
+    out = set()
+    for n in ast.walk(fn.node):
+        if isinstance(n, ast.Assign) and len(n.targets) == 1 and isinstance(n.targets[0], ast.Name):
+            v = n.value
+            if isinstance(v, ast.Subscript):
+                v = v.value
+            if isinstance(v, ast.Call) and isinstance(v.func, ast.Attribute) and v.func.attr in ("parse_args", "parse_known_args", "parse_intermixed_args"):
+                out.add(n.targets[0].id)
+    return out or {"args"}
+
+
 def unpack_map(fn: FunctionInfo) -> Dict[str, str]:
     """local name -> args.<dest>, from `a, b = args.x, args.y` or single assignments."""
+    global _NS_NAMES
+    _NS_NAMES = namespace_names(fn)
     res: Dict[str, str] = {}
     for n in ast.walk(fn.node):
         if isinstance(n, ast.Assign) and len(n.targets) == 1:
@@ -45,7 +63,7 @@ def unpack_map(fn: FunctionInfo) -> Dict[str, str]:
             elif isinstance(t, ast.Name):
                 pairs = [(t, v)]
             for tt, vv in pairs:
-                if isinstance(tt, ast.Name) and isinstance(vv, ast.Attribute) and isinstance(vv.value, ast.Name) and vv.value.id == "args":
+                if isinstance(tt, ast.Name) and isinstance(vv, ast.Attribute) and isinstance(vv.value, ast.Name) and vv.value.id in _NS_NAMES:
                     res[tt.id] = vv.attr
     return res
 
@@ -53,7 +71,7 @@ def unpack_map(fn: FunctionInfo) -> Dict[str, str]:
 def dest_of(e, umap) -> Optional[str]:
     if isinstance(e, ast.Name):
         return umap.get(e.id)
-    if isinstance(e, ast.Attribute) and isinstance(e.value, ast.Name) and e.value.id == "args":
+    if isinstance(e, ast.Attribute) and isinstance(e.value, ast.Name) and e.value.id in _NS_NAMES:
         return e.attr
     return None
 
